@@ -484,7 +484,7 @@ theorem finish_writes (fl : Faults) (live1 : List Key) (a : Auth) (cand : List K
 
 /-- what a run does when there is no (usable) response: the prepared state. -/
 theorem autoTA_none (P : Params) (cfg : List Key) (d : Disk) (live : List Key)
-    (fl : Faults) (now : Nat) (tomb0 : List Nat) (hrt : readTomb d fl = .ok tomb0) :
+    (fl : Faults) (now : Nat) (tomb0 : List Nat) (hrt : readTomb P d fl = .ok tomb0) :
     autoTA P cfg d live none fl now =
       { live := if !live.isEmpty then candidate (prepare cfg (readState d live fl now) tomb0 now).1 else live,
         outcome := .verr,
@@ -502,14 +502,14 @@ theorem autoTA_inv (P : Params) (cfg : List Key) (d : Disk) (live : List Key) (f
       (autoTA P cfg d live f fl now).auth = .none ∧
       ((autoTA P cfg d live f fl now).live = [] ∨
         (autoTA P cfg d live f fl now).live = (autoTA P cfg d live none fl now).live)) ∨
-    ∃ tomb0 f' a, readTomb d fl = .ok tomb0 ∧ f = some f' ∧
+    ∃ tomb0 f' a, readTomb P d fl = .ok tomb0 ∧ f = some f' ∧
       verifyFetched (candidate (prepare cfg (readState d live fl now) tomb0 now).1) f' = a ∧ a ≠ .none ∧
       autoTA P cfg d live f fl now =
         finish fl (if !live.isEmpty then candidate (prepare cfg (readState d live fl now) tomb0 now).1 else live) a
           (candidate (prepare cfg (readState d live fl now) tomb0 now).1)
           (process P f' (a == .revOnly) now (prepare cfg (readState d live fl now) tomb0 now).1
             (prepare cfg (readState d live fl now) tomb0 now).2) := by
-  cases hrt : readTomb d fl with
+  cases hrt : readTomb P d fl with
   | corrupt => left; unfold autoTA; simp [hrt]
   | ok tomb0 =>
     have hnone := autoTA_none P cfg d live fl now tomb0 hrt
@@ -936,5 +936,282 @@ theorem finish_disk_state (fl : Faults) (live1 : List Key) (a : Auth) (cand : Li
   | some k =>
     cases fl.tombWrite <;> cases fl.stateWrite <;> rcases k with _ | _ | k <;>
       simp [applyWrites, applyWrite]
+
+/-! ## Specification vocabulary of `Props/C09.lean` and the lemmas about it
+
+`Barred`, `HistOK` (revocation records), `RevocationOf` (what a revocation-only
+set may complete), `Ghost` / `ghostStep` / `HoldInv` (the RFC 5011 add
+hold-down bookkeeping) are the notions the property theorems are stated with;
+they live here so that `Props/C09.lean` holds property theorems only. -/
+
+/-- The disk bars material `m` from ever being trusted: its revocation is
+recorded in the tombstone file, or by a `StateRevoked`/`StateRemoved` marker in
+the state file — or the tombstone file is corrupt (then nothing is trusted). -/
+def Barred (d : Disk) (m : Nat) : Prop :=
+  d.tomb = .corrupt ∨ (∃ ms, d.tomb = .ok ms ∧ m ∈ ms) ∨
+  (∃ tas, d.state = .ok tas ∧ ∃ ta ∈ tas, ta.key.mat = m ∧ isMarker ta.st = true)
+
+/-- every marker of the state file is backed by the tombstone file. -/
+def MarkersCovered (d : Disk) : Prop :=
+  ∀ tas, d.state = .ok tas → ∀ ta ∈ tas, isMarker ta.st = true →
+    d.tomb = .corrupt ∨ ∃ ms, d.tomb = .ok ms ∧ ta.key.mat ∈ ms
+
+/-- Read assumptions of the `_partial` theorems: the tombstone file is never
+"unreadable" (exists, cannot be opened, not a decode error) — unless the tree
+is the variant that fails closed on it (`P.unreadableEmpty = false`) —, and the state
+file is not lost (read fault / corruption) while it holds the only record of
+a revocation. Write faults, crashes, restarts, tombstone corruption and any
+fetched data are unrestricted. -/
+def EvOK (P : Params) (s : Sys) : Ev → Prop
+  | .run _ fl _ => (fl.tombRead = false ∨ P.unreadableEmpty = false) ∧
+      (fl.stateRead = true → MarkersCovered s.disk)
+  | .damage .state => MarkersCovered s.disk
+  | _ => True
+
+def HistOK (P : Params) (cfg : List Key) : Sys → List Ev → Prop
+  | _, [] => True
+  | s, e :: es => EvOK P s e ∧ HistOK P cfg (step P cfg s e) es
+
+theorem histOK_append (P : Params) (cfg : List Key) (s : Sys) (e1 e2 : List Ev) :
+    HistOK P cfg s (e1 ++ e2) ↔ HistOK P cfg s e1 ∧ HistOK P cfg (runHist P cfg s e1) e2 := by
+  induction e1 generalizing s with
+  | nil => simp [HistOK, runHist]
+  | cons e rest ih =>
+    simp only [List.cons_append, HistOK, runHist, List.foldl_cons]
+    rw [ih]
+    simp [runHist, and_assoc]
+
+/-- the fetched set carries the revocation of anchor `c`: the REVOKE form of
+`c` (same material, only the REVOKE bit differs) is in the set and validly
+self-signed it. -/
+def RevocationOf (f : Fetch) (c : Key) : Prop :=
+  ∃ k' ∈ f.keys, k'.revoke = true ∧ sameKeyExceptRevoke c k' = true ∧ signedBy f.signers k' = true
+
+/-- the key tags `kskFetched` is indexed by. -/
+def fetchedTags (f : Fetch) : List Nat := (sortByTag (fetchedMap f.keys)).map (·.tag)
+
+def thirtyDays : Nat := 30 * 86400
+
+/-- Specification-side bookkeeping (not part of the implementation): for every
+key, the start of its current streak of presence in fully authenticated
+refreshes whose outcome was recorded, and whether it has ever been present in
+a fully authenticated refresh with a streak older than 30 days. -/
+structure Ghost where
+  since : Key → Option Nat
+  earned : Key → Bool
+
+def Ghost.init : Ghost := { since := fun _ => none, earned := fun _ => false }
+
+def sinceAfter (g : Ghost) (f : Fetch) (now : Nat) : Key → Option Nat :=
+  fun k => if k ∈ f.keys then (match g.since k with | some t0 => some t0 | none => some now) else none
+
+def earnedAfter (g : Ghost) (f : Fetch) (now : Nat) : Key → Bool :=
+  fun k => g.earned k || (decide (k ∈ f.keys) &&
+    (match g.since k with | some t0 => decide (now - t0 > thirtyDays) | none => false))
+
+/-- Only refreshes authenticated by a trusted NON-revoked anchor count
+(`auth = full`). A key earns trust when it is in such a refresh and its streak
+started more than 30 days earlier; its streak continues when it is in the set,
+and is broken when the set omits it (recorded only if the state-file
+replacement landed: otherwise the implementation keeps no trace of the run). -/
+def ghostStep (P : Params) (cfg : List Key) (s : Sys) (g : Ghost) : Ev → Ghost
+  | .run (some f) fl crash =>
+    if (runResult P cfg s (some f) fl).auth = .full then
+      { earned := earnedAfter g f s.now,
+        since := if stateLanded fl crash then sinceAfter g f s.now else g.since }
+    else g
+  | _ => g
+
+def runHistG (P : Params) (cfg : List Key) : Sys × Ghost → List Ev → Sys × Ghost
+  | sg, [] => sg
+  | (s, g), e :: es => runHistG P cfg (step P cfg s e, ghostStep P cfg s g e) es
+
+/-- hypothesis of the `_partial` theorem: no fetched SEP key has the key tag
+of a different key that is pending in the state file. -/
+def NoPendCollision (s : Sys) : Ev → Prop
+  | .run (some f) _ _ => ∀ tas, s.disk.state = .ok tas → ∀ ta ∈ tas, ta.st = .addPend →
+      ∀ q ∈ f.keys, q.sep = true → q.tag = ta.key.tag → ta.key ∈ f.keys
+  | _ => True
+
+def HistNC (P : Params) (cfg : List Key) : Sys → List Ev → Prop
+  | _, [] => True
+  | s, e :: es => NoPendCollision s e ∧ HistNC P cfg (step P cfg s e) es
+
+def EntryOK (cfg : List Key) (g : Ghost) (ta : TA) : Prop :=
+  (ta.st = .addPend → ∃ t0, g.since ta.key = some t0 ∧ t0 ≤ ta.firstSeen) ∧
+  (isTrusted ta.st = true → ta.key ∈ cfg ∨ g.earned ta.key = true)
+
+/-- invariant tying the implementation state to the bookkeeping. -/
+structure HoldInv (cfg : List Key) (s : Sys) (g : Ghost) : Prop where
+  disk : ∀ tas, s.disk.state = .ok tas → ∀ ta ∈ tas, EntryOK cfg g ta
+  live : ∀ l, s.proc = some l → ∀ k ∈ l, k ∈ cfg ∨ g.earned k = true
+  clock : ∀ k t0, g.since k = some t0 → t0 ≤ s.now
+
+theorem earnedAfter_mono (g : Ghost) (f : Fetch) (now : Nat) (k : Key) (h : g.earned k = true) :
+    earnedAfter g f now k = true := by simp [earnedAfter, h]
+
+/-- the hold-down loop of a fully authenticated run, entry by entry. -/
+theorem holdStep_full (P : Params) (hP : thirtyDays ≤ P.addHold) (cfg : List Key) (g : Ghost) (f : Fetch)
+    (now : Nat) (hclock : ∀ k t0, g.since k = some t0 → t0 ≤ now) (ta ta' : TA)
+    (hnc : ta.st = .addPend → ta.key.tag ∈ fetchedTags f → ta.key ∈ f.keys)
+    (hpend : ta.st = .addPend → (∃ t0, g.since ta.key = some t0 ∧ t0 ≤ ta.firstSeen) ∨
+      (ta.firstSeen = now ∧ ta.key ∈ f.keys))
+    (htr : isTrusted ta.st = true → ta.key ∈ cfg ∨ g.earned ta.key = true)
+    (hs : holdStep P (fetchedTags f) now ta = some ta') :
+    (isTrusted ta'.st = true → ta'.key ∈ cfg ∨ earnedAfter g f now ta'.key = true) ∧
+    (ta'.st = .addPend → ∃ t0, sinceAfter g f now ta'.key = some t0 ∧ t0 ≤ ta'.firstSeen) := by
+  have lift : ta.key ∈ cfg ∨ g.earned ta.key = true → ta.key ∈ cfg ∨ earnedAfter g f now ta.key = true := by
+    rintro (h | h)
+    · exact Or.inl h
+    · exact Or.inr (earnedAfter_mono g f now _ h)
+  unfold holdStep at hs
+  by_cases hmem : (fetchedTags f).contains ta.key.tag = true
+  · have hm : ta.key.tag ∈ fetchedTags f := by simpa using hmem
+    simp only [hmem, Bool.not_true, Bool.false_eq_true, if_false, Option.some.injEq] at hs
+    cases hst : ta.st with
+    | addPend =>
+      have hin := hnc hst hm
+      by_cases hold : now - ta.firstSeen > P.addHold
+      · -- promoted: the streak is older than 30 days
+        simp [hst, hold] at hs
+        subst hs
+        refine ⟨fun _ => Or.inr ?_, by simp⟩
+        rcases hpend hst with ⟨t0, h1, h2⟩ | ⟨h1, _⟩
+        · simp only [earnedAfter, h1, hin, decide_true, Bool.true_and, Bool.or_eq_true, decide_eq_true_eq]
+          right
+          unfold thirtyDays at hP ⊢
+          omega
+        · rw [h1] at hold; omega
+      · simp [hst, hold] at hs
+        subst hs
+        refine ⟨by simp [hst, isTrusted], fun _ => ?_⟩
+        rcases hpend hst with ⟨t0, h1, h2⟩ | ⟨h1, _⟩
+        · exact ⟨t0, by simp [sinceAfter, hin, h1], h2⟩
+        · cases hsn : g.since ta.key with
+          | none => exact ⟨now, by simp [sinceAfter, hin, hsn], by omega⟩
+          | some t0 => exact ⟨t0, by simp [sinceAfter, hin, hsn], by have := hclock _ _ hsn; omega⟩
+    | valid =>
+      simp [hst] at hs; subst hs
+      exact ⟨fun _ => lift (htr (by simp [hst, isTrusted])), by simp [hst]⟩
+    | missing =>
+      simp [hst] at hs; subst hs
+      exact ⟨fun _ => lift (htr (by simp [hst, isTrusted])), by simp⟩
+    | start => simp [hst] at hs; subst hs; simp [hst, isTrusted]
+    | revoked => simp [hst] at hs; subst hs; simp [hst, isTrusted]
+    | removed => simp [hst] at hs; subst hs; simp [hst, isTrusted]
+  · have hmem' : (fetchedTags f).contains ta.key.tag = false := by simpa using hmem
+    simp only [hmem', Bool.not_false, if_true] at hs
+    cases hst : ta.st with
+    | addPend => simp [hst] at hs
+    | start => simp [hst] at hs
+    | valid =>
+      simp [hst] at hs; subst hs
+      exact ⟨fun _ => lift (htr (by simp [hst, isTrusted])), by simp⟩
+    | missing =>
+      simp only [hst] at hs
+      split at hs
+      · cases hs
+      · simp only [Option.some.injEq] at hs; subst hs
+        exact ⟨fun _ => lift (htr (by simp [hst, isTrusted])), by simp [hst]⟩
+    | revoked => simp [hst] at hs; subst hs; simp [hst, isTrusted]
+    | removed => simp [hst] at hs; subst hs; simp [hst, isTrusted]
+
+/-- revocation-only run: every entry still satisfies the invariant for the
+unchanged bookkeeping. -/
+theorem process_revOnly_entries (P : Params) (cfg : List Key) (g : Ghost) (f : Fetch) (now : Nat)
+    (cur : List TA) (tomb : List Nat) (h : ∀ ta ∈ cur, EntryOK cfg g ta) :
+    ∀ ta ∈ (process P f true now cur tomb).cur, EntryOK cfg g ta := by
+  unfold process
+  simp only [if_true]
+  apply foldl_procFetched_all
+  · exact h
+  · intro k _ old _ _ _ _ _
+    exact ⟨by simp, by simp [isTrusted]⟩
+  · intro k _ hf; cases hf
+
+/-- fully authenticated run: every entry at the end satisfies the invariant
+for the advanced bookkeeping. -/
+theorem process_full_entries (P : Params) (hP : thirtyDays ≤ P.addHold) (cfg : List Key) (g : Ghost)
+    (f : Fetch) (now : Nat) (hclock : ∀ k t0, g.since k = some t0 → t0 ≤ now)
+    (cur : List TA) (tomb : List Nat)
+    (h : ∀ ta ∈ cur, EntryOK cfg g ta ∧ (ta.st = .addPend → ta.key.tag ∈ fetchedTags f → ta.key ∈ f.keys)) :
+    ∀ ta' ∈ (process P f false now cur tomb).cur,
+      (isTrusted ta'.st = true → ta'.key ∈ cfg ∨ earnedAfter g f now ta'.key = true) ∧
+      (ta'.st = .addPend → ∃ t0, sinceAfter g f now ta'.key = some t0 ∧ t0 ≤ ta'.firstSeen) := by
+  -- after the fetched-key loop
+  have hloop : ∀ ta ∈ ((sortByTag (fetchedMap f.keys)).foldl
+      (procFetched (stage cur tomb f.signers (sortByTag (fetchedMap f.keys))) false now)
+      { cur := cur, tomb := tomb }).cur,
+      (ta.st = .addPend → ta.key.tag ∈ fetchedTags f → ta.key ∈ f.keys) ∧
+      (ta.st = .addPend → (∃ t0, g.since ta.key = some t0 ∧ t0 ≤ ta.firstSeen) ∨
+        (ta.firstSeen = now ∧ ta.key ∈ f.keys)) ∧
+      (isTrusted ta.st = true → ta.key ∈ cfg ∨ g.earned ta.key = true) := by
+    apply foldl_procFetched_all
+    · intro ta hta
+      obtain ⟨⟨h1, h2⟩, h3⟩ := h ta hta
+      exact ⟨h3, fun hst => Or.inl (h1 hst), h2⟩
+    · intro k _ old _ _ _ _ _
+      exact ⟨by simp, by simp, by simp [isTrusted]⟩
+    · intro k hk _ _
+      have hin : k ∈ f.keys := (mem_fetchedMap k _ ((mem_sortByTag k _).mp hk)).1
+      exact ⟨fun _ _ => hin, fun _ => Or.inr ⟨rfl, hin⟩, by simp [isTrusted]⟩
+  intro ta' hta'
+  have hproc : (process P f false now cur tomb).cur = holdDown P (fetchedTags f) now
+      ((sortByTag (fetchedMap f.keys)).foldl
+        (procFetched (stage cur tomb f.signers (sortByTag (fetchedMap f.keys))) false now)
+        { cur := cur, tomb := tomb }).cur := by
+    unfold process fetchedTags; simp
+  rw [hproc] at hta'
+  unfold holdDown at hta'
+  obtain ⟨ta, hta, hs⟩ := List.mem_filterMap.mp hta'
+  obtain ⟨h1, h2, h3⟩ := hloop ta hta
+  exact holdStep_full P hP cfg g f now hclock ta ta' h1 h2 h3 hs
+
+/-- entries of the prepared `kskCurrent`: they satisfy the invariant, and a
+pending one was read from the state file. -/
+theorem prepared_entries (cfg : List Key) (g : Ghost) (d : Disk) (live : List Key)
+    (fl : Faults) (now : Nat) (tomb0 : List Nat)
+    (hlive : ∀ k ∈ live, k ∈ cfg ∨ g.earned k = true)
+    (hdisk : ∀ tas, d.state = .ok tas → ∀ ta ∈ tas, EntryOK cfg g ta) :
+    ∀ ta ∈ (prepare cfg (readState d live fl now) tomb0 now).1,
+      EntryOK cfg g ta ∧ (ta.st = .addPend → ∃ tas, d.state = .ok tas ∧ ta ∈ tas) := by
+  intro ta hta
+  have seeded : ta ∈ seedFromLive live now →
+      EntryOK cfg g ta ∧ (ta.st = .addPend → ∃ tas, d.state = .ok tas ∧ ta ∈ tas) := by
+    intro h
+    obtain ⟨h1, h2⟩ := seedFromLive_mem live now ta h
+    rcases h2 with h2 | h2
+    · exact ⟨⟨by simp [h2], fun _ => hlive _ h1⟩, by simp [h2]⟩
+    · exact ⟨⟨by simp [h2], by simp [h2, isTrusted]⟩, by simp [h2]⟩
+  rcases prepare_mem cfg _ tomb0 now ta hta with h | ⟨h1, h2⟩
+  · unfold readState at h
+    split at h
+    · exact seeded h
+    · split at h
+      · next tas htas => exact ⟨hdisk tas htas ta h, fun _ => ⟨tas, htas, h⟩⟩
+      · exact seeded h
+  · exact ⟨⟨by simp [h2], fun _ => Or.inl h1⟩, by simp [h2]⟩
+
+theorem none_live_ok (P : Params) (cfg : List Key) (g : Ghost) (d : Disk) (live : List Key)
+    (fl : Faults) (now : Nat)
+    (hlive : ∀ k ∈ live, k ∈ cfg ∨ g.earned k = true)
+    (hdisk : ∀ tas, d.state = .ok tas → ∀ ta ∈ tas, EntryOK cfg g ta) :
+    ∀ k ∈ (autoTA P cfg d live none fl now).live, k ∈ cfg ∨ g.earned k = true := by
+  cases hrt : readTomb P d fl with
+  | corrupt => unfold autoTA; simp [hrt]
+  | ok tomb0 =>
+    rw [autoTA_none P cfg d live fl now tomb0 hrt]
+    simp only
+    intro k hk
+    split at hk
+    · obtain ⟨ta, hta, rfl, htr⟩ := candidate_mem _ k hk
+      exact ((prepared_entries cfg g d live fl now tomb0 hlive hdisk ta hta).1).2 htr
+    · exact hlive k hk
+
+theorem runHistG_fst (P : Params) (cfg : List Key) (s : Sys) (g : Ghost) (evs : List Ev) :
+    (runHistG P cfg (s, g) evs).1 = runHist P cfg s evs := by
+  induction evs generalizing s g with
+  | nil => rfl
+  | cons e rest ih => simp only [runHistG, runHist, List.foldl_cons]; exact ih _ _
 
 end SdnsVerif.Lemmas.AutoTA
